@@ -51,6 +51,11 @@ REPORTED = [
     "def factorial_of_number(n):\n    return n * factorial_of_number(n - 1) if n else 1\n\n\ndef g(n):\n    return n * g(n - 1) if n else 1\n\n\nprint(factorial_of_number(3), g(3))\n",
     "from __future__ import (\n    annotations,\n)\nprint(os.getcwd())\n", "# comment\nx = 1 + \\\n    2\nprint(os.getcwd(), x)\n", "s = 'a\x0cb'\nprint(os.getcwd(), s)\n",
     "def f(): return\nfor pat in ['return {{x}}']:\n    print(pat)\n",
+    # identifiers the parser normalises (NFKC): the name in the tree is not the name in the text
+    "def \ufb01leName():\n    return 1\n\nprint(\ufb01leName())\n", "class \ufb01:\n    pass\n", "class \ufb01leKind:\n    def \ufb03Name(self):\n        return 1\n\n\nprint(\ufb01leKind().\ufb03Name())\n",
+    "\uff56\uff41\uff52Name = 1\nprint(\uff56\uff41\uff52Name)\n", "def f(\ufb01rstArg):\n    secondVal = \ufb01rstArg\n    return secondVal\n\n\nprint(f(1))\n", "import os as \ufb01le\nprint(\ufb01le.sep)\n",
+    # text that cannot be encoded / that the parser refuses for its depth: not valid Python, handed back
+    "x = '\ud800'\nprint(x)\n", "# \udcff\nx = 1\n", "x = " + "+".join(["a"] * 3000) + "\n", "x = " + "(" * 300 + "1" + ")" * 300 + "\n", "x = " + "[" * 150 + "]" * 150 + "\n",
 ]
 
 
